@@ -380,4 +380,6 @@ def run(chk: Check, ctx: Any) -> None:
     # ------------------------------------------------------------------ R8
     from .c01 import rejection_forms
     n = rejection_forms(chk, ctx, "C10-R8", None, degenerate=True)
+    from .macros import reject_projects
+    n += reject_projects(chk, ctx, "C10-R8")
     chk.floor("C10-R8", "meaningless / degenerate programs compiled abstractly", n, 35)
